@@ -8,10 +8,12 @@ namespace Hex
 variable {K : Type} [Field K] [LinearOrder K] [IsStrictOrderedRing K] [LawfulPyF K]
 namespace Numeric
 
-/-- new direction: up when the close breaks the previous upper band, down when it breaks the
-previous lower band, otherwise unchanged -/
+/-- new direction: when the close is beyond BOTH previous bands (they have crossed) the break of the
+active band decides – down out of an up-trend, up out of a down-trend; else up when the close breaks
+the previous upper band, down when it breaks the previous lower band, otherwise unchanged -/
 def stDir (close pu pl : K) (pd : Int) : Int :=
-  if pu < close then 1 else if close < pl then -1 else pd
+  if pu < close ∧ close < pl then (if pd = 1 then -1 else 1)
+  else if pu < close then 1 else if close < pl then -1 else pd
 
 /-- lower band: ratchets up (never below the previous lower band) while the trend stays up -/
 def stLower (close pu pl : K) (pd : Int) (lower : K) : K :=
@@ -62,42 +64,71 @@ theorem supertrend_step (ops : Ops K) (x : Ctx K) (mult a hl close pu pl : Num K
       L.toF = stLower close.toF pu.toF pl.toF pd (hl.toF - mult.toF * a.toF) ∧
       Calc.supertrend ops x mult =
         .ok (stDict (stDir close.toF pu.toF pl.toF pd) U L, w (sdict [("upper", sc U), ("lower", sc L)])) := by
+  have hone : (Val.int pd : Val K).isIntOne = decide (pd = 1) := by
+    rcases hd with rfl | rfl <;> simp [Val.isIntOne, Num.eq]
   by_cases h1 : pu.toF < close.toF
   · have e1 : close.gt pu = true := (Num.gt_iff _ _).2 h1
-    refine ⟨hl.add (mult.mul a), hl.sub (mult.mul a), by simp [stUpper, h1], by simp [stLower, h1], ?_⟩
-    simp [Calc.supertrend, ha, Ctx.num_of hhl, Ctx.prevExists_of hpl, Ctx.num_of hc, Ctx.prevNum_of hpu,
-      Ctx.prevNum_of hpl, e1, hset, stDict, stDir, h1, Num.eq, sdict, sc]
+    by_cases h2 : close.toF < pl.toF
+    · have e2 : close.lt pl = true := (Num.lt_iff _ _).2 h2
+      refine ⟨hl.add (mult.mul a), hl.sub (mult.mul a), by simp [stUpper, h1], by simp [stLower, h1], ?_⟩
+      rcases hd with rfl | rfl <;>
+        simp [Calc.supertrend, ha, Ctx.num_of hhl, Ctx.prevExists_of hpl, Ctx.num_of hc, Ctx.prevNum_of hpu,
+          Ctx.prevNum_of hpl, hpd, hone, e1, e2, hset, stDict, stDir, h1, h2, Num.eq, sdict, sc]
+    · have e2 : close.lt pl = false := (Num.lt_false_iff _ _).2 (not_lt.1 h2)
+      refine ⟨hl.add (mult.mul a), hl.sub (mult.mul a), by simp [stUpper, h1], by simp [stLower, h1], ?_⟩
+      simp [Calc.supertrend, ha, Ctx.num_of hhl, Ctx.prevExists_of hpl, Ctx.num_of hc, Ctx.prevNum_of hpu,
+        Ctx.prevNum_of hpl, hpd, e1, e2, hset, stDict, stDir, h1, h2, Num.eq, sdict, sc]
   · have e1 : close.gt pu = false := (Num.gt_false_iff _ _).2 (not_lt.1 h1)
     by_cases h2 : close.toF < pl.toF
     · have e2 : close.lt pl = true := (Num.lt_iff _ _).2 h2
       refine ⟨hl.add (mult.mul a), hl.sub (mult.mul a), by simp [stUpper, h1, h2], by simp [stLower, h1, h2], ?_⟩
       simp [Calc.supertrend, ha, Ctx.num_of hhl, Ctx.prevExists_of hpl, Ctx.num_of hc, Ctx.prevNum_of hpu,
-        Ctx.prevNum_of hpl, e1, e2, hset, stDict, stDir, h1, h2, Num.eq, sdict, sc]
+        Ctx.prevNum_of hpl, hpd, e1, e2, hset, stDict, stDir, h1, h2, Num.eq, sdict, sc]
     · have e2 : close.lt pl = false := (Num.lt_false_iff _ _).2 (not_lt.1 h2)
       rcases hd with rfl | rfl
       · by_cases h3 : hl.toF - mult.toF * a.toF < pl.toF
         · have e3 : (hl.sub (mult.mul a)).lt pl = true := by rw [Num.lt_iff]; simpa using h3
           refine ⟨hl.add (mult.mul a), pl, by simp [stUpper, h1, h2], by simp [stLower, h1, h2, h3], ?_⟩
           simp [Calc.supertrend, ha, Ctx.num_of hhl, Ctx.prevExists_of hpl, Ctx.num_of hc, Ctx.prevNum_of hpu,
-            Ctx.prevNum_of hpl, Ctx.prevNum_of hpd, e1, e2, e3, hset, stDict, stDir, h1, h2, Num.eq, sdict, sc]
+            Ctx.prevNum_of hpl, Ctx.prevNum_of hpd, hpd, e1, e2, e3, hset, stDict, stDir, h1, h2, Num.eq, sdict, sc]
         · have e3 : (hl.sub (mult.mul a)).lt pl = false := by rw [Num.lt_false_iff]; simpa using not_lt.1 h3
           refine ⟨hl.add (mult.mul a), hl.sub (mult.mul a), by simp [stUpper, h1, h2], by simp [stLower, h1, h2, h3], ?_⟩
           simp [Calc.supertrend, ha, Ctx.num_of hhl, Ctx.prevExists_of hpl, Ctx.num_of hc, Ctx.prevNum_of hpu,
-            Ctx.prevNum_of hpl, Ctx.prevNum_of hpd, e1, e2, e3, hset, stDict, stDir, h1, h2, Num.eq, sdict, sc]
+            Ctx.prevNum_of hpl, Ctx.prevNum_of hpd, hpd, e1, e2, e3, hset, stDict, stDir, h1, h2, Num.eq, sdict, sc]
       · by_cases h3 : pu.toF < hl.toF + mult.toF * a.toF
         · have e3 : (hl.add (mult.mul a)).gt pu = true := by rw [Num.gt_iff]; simpa using h3
           refine ⟨pu, hl.sub (mult.mul a), by simp [stUpper, h1, h2, h3], by simp [stLower, h1, h2], ?_⟩
           simp [Calc.supertrend, ha, Ctx.num_of hhl, Ctx.prevExists_of hpl, Ctx.num_of hc, Ctx.prevNum_of hpu,
-            Ctx.prevNum_of hpl, Ctx.prevNum_of hpd, e1, e2, e3, hset, stDict, stDir, h1, h2, Num.eq, sdict, sc]
+            Ctx.prevNum_of hpl, Ctx.prevNum_of hpd, hpd, e1, e2, e3, hset, stDict, stDir, h1, h2, Num.eq, sdict, sc]
         · have e3 : (hl.add (mult.mul a)).gt pu = false := by rw [Num.gt_false_iff]; simpa using not_lt.1 h3
           refine ⟨hl.add (mult.mul a), hl.sub (mult.mul a), by simp [stUpper, h1, h2, h3], by simp [stLower, h1, h2], ?_⟩
           simp [Calc.supertrend, ha, Ctx.num_of hhl, Ctx.prevExists_of hpl, Ctx.num_of hc, Ctx.prevNum_of hpu,
-            Ctx.prevNum_of hpl, Ctx.prevNum_of hpd, e1, e2, e3, hset, stDict, stDir, h1, h2, Num.eq, sdict, sc]
+            Ctx.prevNum_of hpl, Ctx.prevNum_of hpd, hpd, e1, e2, e3, hset, stDict, stDir, h1, h2, Num.eq, sdict, sc]
 
 /-- direction stays in {1, −1} -/
 theorem stDir_pm (close pu pl : K) (pd : Int) (hd : pd = 1 ∨ pd = -1) :
     stDir close pu pl pd = 1 ∨ stDir close pu pl pd = -1 := by
   unfold stDir; split_ifs <;> simp [hd]
+
+/-- **the close breaking the ACTIVE band flips the trend**, whatever the idle band is (the stored bands
+may have crossed): out of an up-trend when the close is below the previous lower band … -/
+theorem stDir_flip_down (close pu pl : K) (h : close < pl) : stDir close pu pl 1 = -1 := by
+  unfold stDir
+  by_cases h1 : pu < close <;> simp [h, h1]
+
+/-- … and out of a down-trend when it is above the previous upper band -/
+theorem stDir_flip_up (close pu pl : K) (h : pu < close) : stDir close pu pl (-1) = 1 := by
+  unfold stDir
+  by_cases h2 : close < pl <;> simp [h, h2]
+
+/-- while the close stays on the trend's side of the active band the direction is kept -/
+theorem stDir_keep_up (close pu pl : K) (h : ¬ close < pl) : stDir close pu pl 1 = 1 := by
+  unfold stDir
+  by_cases h1 : pu < close <;> simp [h, h1]
+
+theorem stDir_keep_down (close pu pl : K) (h : ¬ pu < close) : stDir close pu pl (-1) = -1 := by
+  unfold stDir
+  by_cases h2 : close < pl <;> simp [h, h2]
 
 /-- exactly one of long / short is set, and it equals the trend -/
 theorem stDict_fields (D : Int) (U L : Num K) (hD : D = 1 ∨ D = -1) :
